@@ -10,6 +10,8 @@
 //!            (20 mode)            protect_text(mode)   0 checksum, 1 text, 2 both, 3 auto
 //!            (21 tok len)         add a stand-off resource: id r<tok>, text in file r<tok>.txt
 //!            (22 tok)             add a stand-off dataset: id s<tok>, file s<tok>.annotationset.stam.json
+//!            (23 tok secs q ns)   insert_data into dataset s<tok>, key kdt, a Datetime value (unix seconds,
+//!                                 offset q quarter hours, nanoseconds)
 //! opts     = (milestone_interval use_include)
 use crate::out::{guard, Out};
 use crate::rng::Rng;
@@ -23,6 +25,8 @@ use std::sync::atomic::{AtomicUsize, Ordering};
 pub struct Ctx {
     dir: String,
     counter: AtomicUsize,
+    /// what the last executed store contained (for the histogram of the evidence)
+    last_cov: std::cell::RefCell<Vec<String>>,
 }
 
 fn panic_sx() -> Sx {
@@ -337,6 +341,247 @@ fn obs_misc(store: &AnnotationStore) -> Sx {
     l(vec![json, val, perann, counts, cfg])
 }
 
+
+// ---------------------------------------------------------------------------------------------
+// the index dump through the public API, in the format of coq/Run/C11.v store_view
+
+const DEAD: Sx = Sx::A(-2);
+fn bytes_sx(s: &str) -> Sx {
+    l(s.as_bytes().iter().map(|x| a(*x as i64)).collect())
+}
+fn opt_bytes(s: Option<&str>) -> Sx {
+    match s {
+        Some(s) => bytes_sx(s),
+        None => a(-1),
+    }
+}
+fn sorted_handles<'a>(it: impl Iterator<Item = ResultItem<'a, Annotation>>) -> Sx {
+    let mut v: Vec<usize> = it.map(|x| x.handle().as_usize()).collect();
+    v.sort();
+    nats(v)
+}
+fn view_value(v: &DataValue) -> Sx {
+    match v {
+        DataValue::Null => l(vec![a(0)]),
+        DataValue::String(s) => l(vec![a(1), bytes_sx(s)]),
+        DataValue::Bool(x) => l(vec![a(2), b(*x)]),
+        DataValue::Int(i) => l(vec![a(3), a(*i as i64)]),
+        DataValue::Float(f) => {
+            let bits = f.to_bits();
+            l(vec![a(4), a((bits >> 32) as i64), a((bits & 0xffff_ffff) as i64)])
+        }
+        DataValue::List(items) => {
+            let mut v = vec![a(5)];
+            v.extend(items.iter().map(view_value));
+            l(v)
+        }
+        DataValue::Datetime(dt) => l(vec![a(6), bytes_sx(&dt.to_rfc3339())]),
+    }
+}
+
+fn store_view(store: &AnnotationStore) -> Sx {
+    let anns: Vec<Sx> = (0..store.annotations_len())
+        .map(|h| {
+            guard(|| match store.annotation(AnnotationHandle::new(h)) {
+                None => DEAD,
+                Some(x) => l(vec![
+                    opt_bytes(x.id()),
+                    match x.id() {
+                        Some(id) => store.annotation(id).map(|y| a(y.handle().as_usize() as i64)).unwrap_or(a(-1)),
+                        None => a(-1),
+                    },
+                    l(x.as_ref().raw_data().iter().map(|(s, d)| nats(vec![s.as_usize(), d.as_usize()])).collect()),
+                    sorted_handles(x.annotations()),
+                ]),
+            })
+            .unwrap_or_else(panic_sx)
+        })
+        .collect();
+    let ress: Vec<Sx> = (0..store.resources_len())
+        .map(|h| {
+            guard(|| match store.resource(TextResourceHandle::new(h)) {
+                None => DEAD,
+                Some(r) => {
+                    let id = r.id().unwrap_or("");
+                    let tsels: Vec<Sx> = (0..r.textselections_len())
+                        .map(|j| match r.textselection_by_handle(TextSelectionHandle::new(j)) {
+                            Err(_) => DEAD,
+                            Ok(ts) => l(vec![a(ts.begin() as i64), a(ts.end() as i64), sorted_handles(ts.annotations())]),
+                        })
+                        .collect();
+                    let res = r.as_ref();
+                    let posidx: Vec<Sx> = res
+                        .positions(PositionMode::Both)
+                        .map(|k| match res.position(*k) {
+                            None => a(-3),
+                            Some(item) => l(vec![
+                                a(*k as i64),
+                                a(item.bytepos() as i64),
+                                l(item.iter_begin2end().map(|(e, t)| nats(vec![*e, t.as_usize()])).collect()),
+                                l(item.iter_end2begin().map(|(e, t)| nats(vec![*e, t.as_usize()])).collect()),
+                            ]),
+                        })
+                        .collect();
+                    l(vec![
+                        bytes_sx(id),
+                        store.resource(id).map(|y| a(y.handle().as_usize() as i64)).unwrap_or(a(-1)),
+                        bytes_sx(r.text()),
+                        a(r.textlen() as i64),
+                        opt_bytes(res.filename()),
+                        l(tsels),
+                        sorted_handles(r.annotations_as_metadata()),
+                        l(posidx),
+                    ])
+                }
+            })
+            .unwrap_or_else(panic_sx)
+        })
+        .collect();
+    let sets: Vec<Sx> = (0..store.datasets_len())
+        .map(|h| {
+            guard(|| match store.dataset(AnnotationDataSetHandle::new(h)) {
+                None => DEAD,
+                Some(s) => {
+                    let keys: Vec<Sx> = (0..s.as_ref().keys_len())
+                        .map(|j| match s.key(DataKeyHandle::new(j)) {
+                            None => DEAD,
+                            Some(k) => {
+                                let mut dh: Vec<usize> = k.data().map(|d| d.handle().as_usize()).collect();
+                                dh.sort();
+                                l(vec![
+                                    bytes_sx(k.id().unwrap_or("")),
+                                    s.key(k.id().unwrap_or("")).map(|y| a(y.handle().as_usize() as i64)).unwrap_or(a(-1)),
+                                    nats(dh),
+                                    sorted_handles(k.annotations_as_metadata()),
+                                ])
+                            }
+                        })
+                        .collect();
+                    let data: Vec<Sx> = (0..s.as_ref().data_len())
+                        .map(|j| match s.annotationdata(AnnotationDataHandle::new(j)) {
+                            None => DEAD,
+                            Some(d) => l(vec![
+                                opt_bytes(d.id()),
+                                match d.id() {
+                                    Some(id) => s.annotationdata(id).map(|y| a(y.handle().as_usize() as i64)).unwrap_or(a(-1)),
+                                    None => a(-1),
+                                },
+                                a(d.key().handle().as_usize() as i64),
+                                view_value(d.value()),
+                                sorted_handles(d.annotations()),
+                                sorted_handles(d.annotations_as_metadata()),
+                            ]),
+                        })
+                        .collect();
+                    l(vec![
+                        opt_bytes(s.id()),
+                        match s.id() {
+                            Some(id) => store.dataset(id).map(|y| a(y.handle().as_usize() as i64)).unwrap_or(a(-1)),
+                            None => a(-1),
+                        },
+                        opt_bytes(s.as_ref().filename()),
+                        l(keys),
+                        l(data),
+                        sorted_handles(s.annotations()),
+                    ])
+                }
+            })
+            .unwrap_or_else(panic_sx)
+        })
+        .collect();
+    l(vec![l(anns), l(ress), l(sets)])
+}
+
+// ---------------------------------------------------------------------------------------------
+// generic CBOR item trees (the file is well-formed CBOR), canonical up to the order of map entries
+
+#[derive(Clone, PartialEq, Eq, PartialOrd, Ord, Debug)]
+enum Item {
+    U(u64),
+    N(u64),
+    T(Vec<u8>),
+    Arr(Vec<Item>),
+    Map(Vec<(Item, Item)>),
+    Simple(u8),
+    F(u64),
+}
+
+fn parse_item(b: &[u8], pos: &mut usize, depth: usize) -> Option<Item> {
+    if depth > 200 || *pos >= b.len() {
+        return None;
+    }
+    let h = b[*pos];
+    *pos += 1;
+    let (m, ai) = (h >> 5, h & 31);
+    let mut arg = |pos: &mut usize| -> Option<u64> {
+        let n = match ai {
+            0..=23 => return Some(ai as u64),
+            24 => 1,
+            25 => 2,
+            26 => 4,
+            27 => 8,
+            _ => return None,
+        };
+        if *pos + n > b.len() {
+            return None;
+        }
+        let mut v: u64 = 0;
+        for i in 0..n {
+            v = (v << 8) | b[*pos + i] as u64;
+        }
+        *pos += n;
+        Some(v)
+    };
+    match m {
+        0 => arg(pos).map(Item::U),
+        1 => arg(pos).map(Item::N),
+        3 => {
+            let n = arg(pos)? as usize;
+            if *pos + n > b.len() {
+                return None;
+            }
+            let v = b[*pos..*pos + n].to_vec();
+            *pos += n;
+            Some(Item::T(v))
+        }
+        4 => {
+            let n = arg(pos)?;
+            let mut v = Vec::new();
+            for _ in 0..n {
+                v.push(parse_item(b, pos, depth + 1)?);
+            }
+            Some(Item::Arr(v))
+        }
+        5 => {
+            let n = arg(pos)?;
+            let mut v = Vec::new();
+            for _ in 0..n {
+                let k = parse_item(b, pos, depth + 1)?;
+                let x = parse_item(b, pos, depth + 1)?;
+                v.push((k, x));
+            }
+            v.sort();
+            Some(Item::Map(v))
+        }
+        7 => match ai {
+            20..=22 => Some(Item::Simple(ai)),
+            27 => arg(pos).map(Item::F),
+            _ => None,
+        },
+        _ => None,
+    }
+}
+
+fn canonical_tree(b: &[u8]) -> Option<Item> {
+    let mut pos = 0;
+    let it = parse_item(b, &mut pos, 0)?;
+    if pos == b.len() {
+        Some(it)
+    } else {
+        None
+    }
+}
+
 pub const SECTIONS: [&str; 6] = ["items+reverse-lookups+ids", "texts+textselections+positionindex", "data", "related_text", "queries", "json+validation+counts+config"];
 
 fn observe_full(store: &AnnotationStore, pool: &[String]) -> Vec<Sx> {
@@ -381,22 +626,125 @@ fn apply(store: &mut AnnotationStore, dir: &str, op: &Sx) -> Sx {
             let fname = format!("{}.annotationset.stam.json", id);
             let json = format!("{{\"@type\": \"AnnotationDataSet\", \"@id\": \"{}\", \"keys\": [{{\"@type\": \"DataKey\", \"@id\": \"k0\"}}], \"data\": [{{\"@type\": \"AnnotationData\", \"@id\": \"d7\", \"key\": \"k0\", \"value\": {{\"@type\": \"Int\", \"value\": 1}}}}]}}", id);
             let _ = std::fs::write(format!("{}/{}", dir, fname), json);
-            let bld = AnnotationDataSetBuilder::new().with_id(id).with_filename(fname);
+            // (with an id the builder ignores the file; the id comes from the file)
+            let bld = AnnotationDataSetBuilder::new().with_filename(fname);
             match guard(|| store.add_dataset(bld)) {
                 None => panic_sx(),
                 Some(Err(_)) => err_sx(),
                 Some(Ok(h)) => l(vec![a(1), a(h.as_usize() as i64)]),
             }
         }
+        23 => {
+            // data with a Datetime value (the third custom codec): dataset s<tok>, key kdt
+            let secs = op.nth(2).int();
+            let off = FixedOffset::east_opt((op.nth(3).int() as i32) * 900).unwrap_or(FixedOffset::east_opt(0).unwrap());
+            let dt = DateTime::<Utc>::from_timestamp(secs, (op.nth(4).int() as u32) % 1_000_000_000).unwrap_or_default().with_timezone(&off);
+            let bld = AnnotationDataBuilder::new().with_dataset(storegen::sid(op.nth(1).int()).into()).with_key("kdt".into()).with_value(DataValue::Datetime(dt));
+            match guard(|| store.insert_data(bld)) {
+                None => panic_sx(),
+                Some(Err(_)) => err_sx(),
+                Some(Ok(h)) => l(vec![a(1), a(h.1.as_usize() as i64)]),
+            }
+        }
         _ => storegen::apply(store, op),
     }
+}
+
+
+fn sel_cov(sel: &Selector, out: &mut Vec<String>) {
+    let name = match sel {
+        Selector::TextSelector(..) => "sel_text",
+        Selector::AnnotationSelector(_, Some(_)) => "sel_annotation_with_offset",
+        Selector::AnnotationSelector(_, None) => "sel_annotation",
+        Selector::ResourceSelector(..) => "sel_resource",
+        Selector::DataSetSelector(..) => "sel_dataset",
+        Selector::MultiSelector(..) => "sel_multi",
+        Selector::CompositeSelector(..) => "sel_composite",
+        Selector::DirectionalSelector(..) => "sel_directional",
+        Selector::DataKeySelector(..) => "sel_datakey",
+        Selector::AnnotationDataSelector(..) => "sel_annotationdata",
+        Selector::RangedTextSelector { .. } => "sel_ranged_text",
+        Selector::RangedAnnotationSelector { .. } => "sel_ranged_annotation",
+    };
+    out.push(name.to_string());
+    if let Selector::MultiSelector(v) | Selector::CompositeSelector(v) | Selector::DirectionalSelector(v) = sel {
+        for x in v {
+            sel_cov(x, out);
+        }
+    }
+}
+
+/// which features the saved store exercises
+fn coverage(store: &AnnotationStore) -> Vec<String> {
+    let mut out = Vec::new();
+    guard(|| {
+        let mut gaps = false;
+        for h in 0..store.annotations_len() {
+            match store.annotation(AnnotationHandle::new(h)) {
+                None => gaps = true,
+                Some(x) => sel_cov(x.as_ref().target(), &mut out),
+            }
+        }
+        if gaps {
+            out.push("gap_annotations".into());
+        }
+        for h in 0..store.resources_len() {
+            match store.resource(TextResourceHandle::new(h)) {
+                None => out.push("gap_resources".into()),
+                Some(r) => {
+                    if r.as_ref().filename().is_some() {
+                        out.push("standoff_resource".into());
+                    }
+                    if (0..r.textselections_len()).any(|j| r.textselection_by_handle(TextSelectionHandle::new(j)).is_err()) {
+                        out.push("gap_textselections".into());
+                    }
+                }
+            }
+        }
+        for h in 0..store.datasets_len() {
+            match store.dataset(AnnotationDataSetHandle::new(h)) {
+                None => out.push("gap_datasets".into()),
+                Some(s) => {
+                    if s.as_ref().filename().is_some() {
+                        out.push("standoff_dataset".into());
+                    }
+                    if (0..s.as_ref().keys_len()).any(|j| s.key(DataKeyHandle::new(j)).is_none()) {
+                        out.push("gap_keys".into());
+                    }
+                    if (0..s.as_ref().data_len()).any(|j| s.annotationdata(AnnotationDataHandle::new(j)).is_none()) {
+                        out.push("gap_data".into());
+                    }
+                    for d in s.data() {
+                        out.push(
+                            match d.value() {
+                                DataValue::Null => "val_null",
+                                DataValue::String(_) => "val_string",
+                                DataValue::Bool(_) => "val_bool",
+                                DataValue::Int(_) => "val_int",
+                                DataValue::Float(_) => "val_float",
+                                DataValue::List(_) => "val_list",
+                                DataValue::Datetime(_) => "val_datetime",
+                            }
+                            .to_string(),
+                        );
+                    }
+                }
+            }
+        }
+        if store.has_validation_info() {
+            out.push("protected_text".into());
+        }
+    });
+    out.sort();
+    out.dedup();
+    out
 }
 
 impl Ctx {
     pub fn new() -> Self {
         let dir = workdir();
         let _ = std::fs::create_dir_all(&dir);
-        Ctx { dir, counter: AtomicUsize::new(0) }
+        Ctx { dir, counter: AtomicUsize::new(0), last_cov: std::cell::RefCell::new(Vec::new()) }
     }
 
     fn config(&self, opts: &Sx) -> Config {
@@ -426,6 +774,7 @@ impl Ctx {
             store.set_filename(fname.as_str());
         })
         .is_some();
+        *self.last_cov.borrow_mut() = coverage(&store);
         let pool = guard(|| query_pool(&store)).unwrap_or_default();
         let orig = observe_full(&store, &pool);
         let saved = if named {
@@ -446,6 +795,8 @@ impl Ctx {
         let mut sections_in = Vec::new(); // what the original answered (goes to the model, which demands the same of the reload)
         let mut sections_out = Vec::new(); // what the reloaded store answers
         let mut load_code = 1;
+        let view_orig = store_view(&store);
+        let mut view_back = a(-9);
         match loaded {
             Some(Ok(store2)) => {
                 let back = observe_full(&store2, &pool);
@@ -459,26 +810,43 @@ impl Ctx {
                         sections_out.push(r.clone());
                     }
                 }
-                // a second generation must be loadable too and answer the same
+                // a second generation must be loadable too, answer the same, and its file must be the
+                // first one up to the order of map entries (HashMap iteration order is not fixed)
+                let view2 = store_view(&store2);
                 let fname2 = format!("case{}b.store.stam.cbor", n % 4);
+                let path2 = format!("{}/{}", self.dir, fname2);
+                let tree1 = canonical_tree(&bytes);
                 let second = guard(|| {
                     let mut s2 = store2;
                     s2.set_filename(fname2.as_str());
                     if s2.save().is_err() {
-                        return a(0);
+                        return (a(0), a(0));
                     }
+                    let bytes2 = std::fs::read(&path2).unwrap_or_default();
+                    // the stored file name differs by construction: compare with it patched back
+                    let same_file = match (tree1.clone(), canonical_tree(&bytes2)) {
+                        (Some(Item::Arr(mut t1)), Some(Item::Arr(mut t2))) if t1.len() == t2.len() && t1.len() > 200 => {
+                            t1[200] = Item::Simple(22);
+                            t2[200] = Item::Simple(22);
+                            b(t1 == t2)
+                        }
+                        _ => a(0),
+                    };
                     match AnnotationStore::from_file(fname2.as_str(), self.config(opts)) {
                         Ok(s3) => {
                             let third = observe_full(&s3, &pool);
-                            b(third == back)
+                            (b(third == back), same_file)
                         }
-                        Err(_) => a(0),
+                        Err(_) => (a(0), same_file),
                     }
                 })
-                .unwrap_or_else(|| a(-1));
-                let _ = std::fs::remove_file(format!("{}/{}", self.dir, fname2));
+                .unwrap_or_else(|| (a(-1), a(-1)));
+                let _ = std::fs::remove_file(&path2);
                 sections_in.push(a(1));
-                sections_out.push(second);
+                sections_out.push(second.0);
+                sections_in.push(a(1));
+                sections_out.push(second.1);
+                view_back = view2;
             }
             Some(Err(_)) => {
                 load_code = 0;
@@ -486,6 +854,8 @@ impl Ctx {
                     sections_in.push(digest(o));
                     sections_out.push(err_sx());
                 }
+                sections_in.push(a(1));
+                sections_out.push(a(0));
                 sections_in.push(a(1));
                 sections_out.push(a(0));
             }
@@ -497,11 +867,13 @@ impl Ctx {
                 }
                 sections_in.push(a(1));
                 sections_out.push(a(-1));
+                sections_in.push(a(1));
+                sections_out.push(a(-1));
             }
         }
         let _ = std::fs::remove_file(&path);
         let bytes_sx = l(bytes.iter().map(|x| a(*x as i64)).collect());
-        let input = l(vec![l(sections_in), bytes_sx.clone()]);
+        let input = l(vec![l(sections_in), bytes_sx.clone(), view_orig]);
         let mut implout = sections_out;
         // save and load succeeded
         implout.push(l(vec![a(saved), a(load_code)]));
@@ -509,6 +881,8 @@ impl Ctx {
         implout.push(bytes_sx);
         // the file is one well-formed CBOR data item (checked by an independent strict reader)
         implout.push(b(strict_one_item(&bytes)));
+        // the index dump of the reloaded store
+        implout.push(view_back);
         let nontrivial = store.annotations_len() > 0 && saved == 1 && outcomes.iter().any(|o| o.nth(0).int() == 1);
         (input, implout, nontrivial)
     }
@@ -606,6 +980,49 @@ fn history(rng: &mut Rng, max_ops: usize, removals: usize) -> Vec<Sx> {
         let at = rng.below(ops.len() + 1);
         ops.insert(at, l(vec![a(20), a(rng.range(0, 3))]));
     }
+    if rng.chance(1, 4) {
+        let at = rng.below(ops.len() + 1);
+        let secs = *rng.pick(&[0i64, 1, 951782400, 1709208000, 4102444799, -1, -86400 * 365 * 80]);
+        let ns = *rng.pick(&[0i64, 0, 500_000_000, 123_456_789, 1000]);
+        ops.insert(at, l(vec![a(23), a(rng.range(0, 3)), a(secs), a(rng.range(-48, 56)), a(ns)]));
+    }
+    ops
+}
+
+/// consecutive annotations on one resource and complex selectors over them (triggers the internal
+/// range compression for annotations, with and without text), then removals
+fn history_chain(rng: &mut Rng) -> Vec<Sx> {
+    let k = 2 + rng.below(4);
+    let len = 2 * k + rng.below(3);
+    let mut ops = vec![l(vec![a(0), a(0), a(len as i64)])];
+    let cur = |n: i64| l(vec![a(0), a(n)]);
+    for i in 0..k {
+        let tgt = l(vec![a(0), l(vec![a(0), a(0)]), cur(2 * i as i64), cur(2 * i as i64 + 1 + rng.below(2) as i64)]);
+        let datas = if rng.chance(1, 2) { vec![l(vec![l(vec![a(0), a(0)]), a(-1), l(vec![a(0), a(rng.below(2) as i64)]), l(vec![a(2), a(rng.below(3) as i64)])])] } else { vec![] };
+        ops.push(l(vec![a(3), a(i as i64), tgt, l(datas)]));
+    }
+    for _ in 0..1 + rng.below(3) {
+        let kind = 1 + rng.below(3) as i64;
+        let lo = rng.below(k - 1);
+        let hi = lo + 1 + rng.below(k - lo - 1);
+        let with_text = rng.chance(1, 2);
+        let mut v = vec![a(7), a(kind)];
+        for h in lo..=hi {
+            let r = l(vec![a(1), a(h as i64)]);
+            if with_text {
+                v.push(l(vec![a(2), r, cur(0), if rng.chance(1, 2) { l(vec![a(1), a(0)]) } else { cur(1) }]));
+            } else {
+                v.push(l(vec![a(1), r]));
+            }
+        }
+        ops.push(l(vec![a(3), a(-1), l(v), l(vec![])]));
+    }
+    if rng.chance(1, 3) {
+        ops.push(l(vec![a(20), a(rng.range(0, 3))]));
+    }
+    for _ in 0..rng.below(3) {
+        ops.push(l(vec![a(4), l(vec![a(1), a(rng.below(k + 3) as i64)])]));
+    }
     ops
 }
 
@@ -619,20 +1036,38 @@ pub fn generate(out: &mut Out, tier: &str, seed: u64) {
         for op in req.nth(0).list() {
             out.count(&format!("op{}", op.nth(0).int()));
         }
-        let sl = &o[o.len() - 3];
+        let sl = &o[o.len() - 4];
         out.count(&format!("save{}_load{}", sl.nth(0).int(), sl.nth(1).int()));
         out.count(key);
+        for c in ctx.last_cov.borrow().iter() {
+            out.count(&format!("stores_with_{}", c));
+        }
         out.case(&i, &o, nt, &req);
     };
     // fixed small stores: empty, one resource, every selector kind once
     emit(out, l(vec![l(vec![]), l(vec![a(100), a(1)])]), "fixed");
     emit(out, l(vec![l(vec![l(vec![a(0), a(0), a(5)])]), l(vec![a(1), a(1)])]), "fixed");
+    // complex selectors over consecutive annotations (internal RangedAnnotationSelector, with and
+    // without text), followed by removals that leave gaps
+    for req in [
+        "(((0 0 8) (3 0 (0 (0 0) (0 0) (0 2)) ()) (3 1 (0 (0 0) (0 2) (0 4)) ()) (3 2 (0 (0 0) (0 4) (0 6)) ()) (3 3 (7 1 (1 (1 0)) (1 (1 1)) (1 (1 2))) ())) (100 1))",
+        "(((0 0 8) (3 0 (0 (0 0) (0 0) (0 2)) ()) (3 1 (0 (0 0) (0 2) (0 4)) ()) (3 2 (0 (0 0) (0 4) (0 6)) ()) (3 4 (7 2 (2 (1 0) (0 0) (0 1)) (2 (1 1) (0 0) (0 1)) (2 (1 2) (0 0) (0 1))) ())) (2 1))",
+        "(((0 0 8) (3 0 (0 (0 0) (0 0) (0 2)) ()) (3 1 (0 (0 0) (0 2) (0 4)) ()) (3 2 (0 (0 0) (0 4) (0 6)) ()) (3 3 (7 3 (1 (1 0)) (1 (1 1)) (1 (1 2))) ()) (3 5 (7 1 (2 (1 0) (0 0) (1 0)) (2 (1 1) (0 0) (1 0))) ()) (20 2) (4 (1 1))) (3 0))",
+        "(((21 1 6) (22 0) (23 0 951782400 4 500000000) (3 0 (0 (0 1) (0 1) (1 -1)) (((0 0) -1 (0 0) (2 1)))) (3 1 (5 (0 0) (0 0)) ()) (3 2 (6 (0 0) (1 0)) ()) (20 0)) (1 1))",
+    ] {
+        emit(out, crate::sx::parse(req).unwrap(), "fixed");
+    }
     let n_add = if thorough { 4000 } else { 500 };
     let n_rem = if thorough { 8000 } else { 900 };
     for _ in 0..n_add {
         let h = history(&mut rng, 14, 0);
         let o = opts(&mut rng);
         emit(out, l(vec![l(h), o]), "additions_only");
+    }
+    for _ in 0..(if thorough { 1000 } else { 150 }) {
+        let h = history_chain(&mut rng);
+        let o = opts(&mut rng);
+        emit(out, l(vec![l(h), o]), "annotation_chains");
     }
     for _ in 0..n_rem {
         let h = history(&mut rng, 24, 4);
